@@ -2252,11 +2252,11 @@ def api_main(repo, out, base_info):
             known[fn] = list(f.extra_params) + gl
             status[fn] = "ok" + (" (asserts: %s)" % ", ".join(f.asserts) if f.asserts else "")
         except Unsupported as e:
-            parts.append("(* %s: NOT TRANSLATED: %s *)" % (fn, e))
+            parts.append(cmt("%s: NOT TRANSLATED: %s" % (fn, e)))
             status[fn] = "unsupported: %s" % e
         except Exception as e:   # noqa
             import traceback
-            parts.append("(* %s: NOT TRANSLATED: %r *)" % (fn, e))
+            parts.append(cmt("%s: NOT TRANSLATED: %r" % (fn, e)))
             status[fn] = "error: %r %s" % (e, traceback.format_exc()[-300:])
     new = "\n\n".join(parts) + "\n"
     try:
@@ -2320,6 +2320,11 @@ def table(repo, src, name):
             c = c["inner"][0]
         vals.append(c["value"])
     return "Definition %s : list Z := [%s]." % (name, "; ".join(vals))
+
+
+def cmt(text):
+    """a Coq comment with this text: comment delimiters and string quotes inside it are defused"""
+    return "(* " + str(text).replace("(*", "( *").replace("*)", "* )").replace('"', "'") + " *)"
 
 
 def strip_casts(x):
@@ -2405,7 +2410,7 @@ def main():
     try:
         parts.append(table(repo, "gf.c", "polyseed_mul2_table"))
     except Exception as e:   # noqa
-        parts.append("(* polyseed_mul2_table: not translated: %s *)" % e)
+        parts.append(cmt("polyseed_mul2_table: not translated: %s" % e))
     known = {}
     for src, fn, params, outs, gl, rty in TARGETS:
         try:
@@ -2422,10 +2427,10 @@ def main():
             register_sig(repo, src, fn, f, params, outs, gl, rty)
             status[fn] = "ok" + (" (asserts: %s)" % ", ".join(f.asserts) if f.asserts else "")
         except Unsupported as e:
-            parts.append("(* %s: NOT TRANSLATED: %s *)" % (fn, e))
+            parts.append(cmt("%s: NOT TRANSLATED: %s" % (fn, e)))
             status[fn] = "unsupported: %s" % e
         except Exception as e:   # noqa
-            parts.append("(* %s: NOT TRANSLATED: %r *)" % (fn, e))
+            parts.append(cmt("%s: NOT TRANSLATED: %r" % (fn, e)))
             status[fn] = "error: %r" % e
     # the prefix length the two wrappers hand to the prefix comparers (third argument of the call)
     for wrap_fn, callee in (("compare_prefix_wrap", "compare_prefix"), ("compare_prefix_noaccent_wrap", "compare_prefix_noaccent")):
@@ -2451,7 +2456,7 @@ def main():
             else:
                 raise Unsupported("call of %s not found or its length argument is not a constant" % callee)
         except Unsupported as e:
-            parts.append("(* %s: NOT TRANSLATED: %s *)" % (wrap_fn, e))
+            parts.append(cmt("%s: NOT TRANSLATED: %s" % (wrap_fn, e)))
             status[wrap_fn] = "unsupported: %s" % e
     # the four bsearch adapters as functions of the two strings their arguments point to: the body must be
     # exactly  key = *(const char**)<p>; elm = *(const char**)<q>; return <callee>(<x>, <y>[, <constant>]);
@@ -2461,7 +2466,7 @@ def main():
             parts.append(wrapper(repo, wrap_fn, status))
             status[wrap_fn + "(body)"] = "ok"
         except Unsupported as e:
-            parts.append("(* %s (body): NOT TRANSLATED: %s *)" % (wrap_fn, e))
+            parts.append(cmt("%s (body): NOT TRANSLATED: %s" % (wrap_fn, e)))
             status[wrap_fn + "(body)"] = "unsupported: %s" % e
     new = "\n\n".join(parts) + "\n"
     try:
